@@ -380,6 +380,7 @@ type Contract struct {
 	Ensures  []*Clause
 	Assumes  []*Clause // unchecked assumptions on entry (listed)
 	Defines  []*Clause // definitional ensures: assumed at call sites, not checked on the body (listed as trusted)
+	CallAsserts []*Clause // `at call <callee> <n> assert <expr>`: Text = "callee#n", E over the caller's locals
 	Records  []*Clause // ghost records: Text = ghost var name, E = value (post-state), applied at call sites
 	Modifies []string  // raw items: "T.f", "x.f", "*" , "ghost name"
 	Loops    map[int]*LoopSpec
@@ -598,6 +599,34 @@ func (cs *ContractSet) parseContractFile(pkgPath, file string) {
 				cur.Assumes = append(cur.Assumes, &Clause{Text: rest, E: e, N: len(cur.Assumes) + 1})
 				cs.RawScan = append(cs.RawScan, "assume in "+cur.Key+": "+rest)
 			}
+		case "at":
+			// at call <callee> <ordinal> assert <expr>
+			if cur == nil {
+				errf(ln, "at outside func block")
+				continue
+			}
+			f := strings.Fields(rest)
+			if len(f) >= 4 && f[0] == "return" && f[2] == "assert" {
+				ex := strings.TrimSpace(rest[strings.Index(rest, " assert ")+8:])
+				e, err := parseSpec(ex)
+				if err != nil {
+					errf(ln, "%v", err)
+					continue
+				}
+				cur.CallAsserts = append(cur.CallAsserts, &Clause{Text: "return#" + f[1], E: e, N: len(cur.CallAsserts) + 1})
+				continue
+			}
+			if len(f) < 5 || f[0] != "call" || f[3] != "assert" {
+				errf(ln, "at call <callee> <n> assert <expr> | at return <n> assert <expr>")
+				continue
+			}
+			ex := strings.TrimSpace(rest[strings.Index(rest, " assert ")+8:])
+			e, err := parseSpec(ex)
+			if err != nil {
+				errf(ln, "%v", err)
+				continue
+			}
+			cur.CallAsserts = append(cur.CallAsserts, &Clause{Text: f[1] + "#" + f[2], E: e, N: len(cur.CallAsserts) + 1})
 		case "records":
 			if cur == nil {
 				errf(ln, "records outside func block")
